@@ -14,6 +14,7 @@ package main
 // Model rows: the decoded value INCLUDING dynamic types (VIface dyn ...) against KmipCodec.
 
 import (
+	"encoding/hex"
 	"bytes"
 	"encoding/binary"
 	"fmt"
@@ -166,6 +167,31 @@ func driveC06(c *h.Ctx) error {
 		}
 	}
 	var rowsSame, rowsMsg, rowsDec []string
+	negatives := func(b []byte, msg any, root string, i int, note string, descr any, codes []uint32) {
+		if _, ok := c06Patch(b, kmip.TagObjectType, 5, 0); !ok {
+			return
+		}
+		for _, code := range codes {
+			pb, _ := c06Patch(b, kmip.TagObjectType, 5, code)
+			o2 := newMsgLike(msg)
+			e2, p2 := safeUnmarshal(pb, o2)
+			nj := map[string]any{"case_index": i, "note": note + fmt.Sprintf(" object type patched to 0x%X", code), "message": descr, "input_hex": hex.EncodeToString(pb)}
+			c.Count("negative:unknown-object-type")
+			obs := "OErr"
+			switch {
+			case p2 != "":
+				c.Fail("C06/unknown-object-type/panic", p2, nj)
+				obs = "OPanic"
+			case e2 == nil:
+				// accepted: acceptable only if no object is attached to that type (e.g. the patched item was an attribute value)
+				c06CheckTypes(c, o2, nj)
+				rb, _ := safeMarshal(o2)
+				obs = "OOk " + h.HexBytes(rb)
+			}
+			rowsDec = append(rowsDec, fmt.Sprintf("(%q, %s, %s)", root, h.HexBytes(pb), obs))
+			c.IndexCase("mism_dec", len(rowsDec)-1, nj)
+		}
+	}
 	for i, gc := range cases {
 		if replayIndex >= 0 && i != replayIndex {
 			continue
@@ -218,27 +244,33 @@ func driveC06(c *h.Ctx) error {
 			c.IndexCase("mism_msg", len(rowsMsg)-1, cj)
 		}
 		// ---- negatives: unknown object type -> error, never a value of a wrong type
-		if _, ok := c06Patch(b, kmip.TagObjectType, 5, 0); ok {
-			for _, code := range []uint32{0, 0x0A, 0x7F, 0x80000002, 0xffffffff} {
-				pb, _ := c06Patch(b, kmip.TagObjectType, 5, code)
-				o2 := newMsgLike(msg)
-				e2, p2 := safeUnmarshal(pb, o2)
-				nj := map[string]any{"case_index": i, "note": gc.note + fmt.Sprintf(" object type patched to 0x%X", code), "message": cj["message"]}
-				c.Count("negative:unknown-object-type")
-				obs := "OErr"
-				switch {
-				case p2 != "":
-					c.Fail("C06/unknown-object-type/panic", p2, nj)
-					obs = "OPanic"
-				case e2 == nil:
-					// accepted: acceptable only if no object is attached to that type (e.g. the patched item was an attribute value)
-					c06CheckTypes(c, o2, nj)
-					rb, _ := safeMarshal(o2)
-					obs = "OOk " + h.HexBytes(rb)
-				}
-				rowsDec = append(rowsDec, fmt.Sprintf("(%q, %s, %s)", root, h.HexBytes(pb), obs))
-				c.IndexCase("mism_dec", len(rowsDec)-1, nj)
+		negatives(b, msg, root, i, gc.note, cj["message"], []uint32{0, 0x0A, 0x7F, 0x80000002, 0xffffffff})
+	}
+	// ---- an Export response whose attribute list names the object's type: the type FIELD still decides
+	if replayIndex < 0 {
+		for k, o := range u.Objs {
+			r := h.NewRand(c.Seed).Fork(uint64(900000 + k))
+			m := gv.GenResponse(r, kmip.V1_4, gv.Opts{Ops: []kmip.Operation{kmip.OperationExport}, Object: o, NoKnownFindings: true})
+			if len(m.BatchItem) != 1 {
+				continue
 			}
+			pl, ok := m.BatchItem[0].ResponsePayload.(*payloads.ExportResponsePayload)
+			if !ok || pl.Object == nil {
+				continue
+			}
+			pl.Attribute = append([]kmip.Attribute{{AttributeName: kmip.AttributeNameObjectType, AttributeValue: pl.ObjectType}}, pl.Attribute...)
+			b, p := safeMarshal(&m)
+			if p != "" {
+				continue
+			}
+			codes := []uint32{0x0A, 0x7E, 0x80000001}
+			for _, o2 := range u.Objs {
+				if o2 != o {
+					codes = append(codes, uint32(o2))
+				}
+			}
+			c.Eval(fmt.Sprintf("export-with-object-type-attribute/%d", o), true)
+			negatives(b, &m, "kmip.ResponseMessage", 100000+k, fmt.Sprintf("Export response of object type 0x%X with an Object Type attribute", uint32(o)), gv.Describe(m), codes)
 		}
 	}
 	// ---- attribute values of the wrong wire type for their standard name
